@@ -3,12 +3,14 @@ Dispatcher of the driver: the first handler that knows the op answers.
 To add an area: `import Pygom.Ops<Area>` and append `handle<Area>` to `handlers`.
 -/
 import Pygom.Ops
+import Pygom.OpsEst
 
 namespace Pygom
 open Lean (Json)
 
 def handlers : List (String → Json → Option (Except String Json)) :=
   [ handleCore
+  , handleEst
   ]
 
 def handle (j : Json) : Json :=
